@@ -93,6 +93,7 @@ func runC10(c *Ctx) {
 	c10end(c, m)
 	c10commitResult(c, m)
 	c10setOffsets(c, m)
+	c10committedView(c, m)
 	c10requireStable(c, m)
 	c10callback(c, m)
 	// exactly-once also needs EndTransaction to be truthful and to heal an
@@ -1546,4 +1547,74 @@ func leaksToDone(g *Graph, ifs *ast.IfStmt) bool {
 func ordinal(n *int) string {
 	*n++
 	return string(rune('0' + *n))
+}
+
+// c10committedView: End rewinds an aborted transaction with
+// setOffsets(CommittedOffsets()).  CommittedOffsets must therefore contain an
+// entry for EVERY partition the member tracks - also the never-committed ones,
+// whose sentinel entry is what seeks them back to the start: in
+// getUncommittedLocked no partition is skipped when head == false.
+func c10committedView(c *Ctx, m *Module) {
+	rule := "committed-view-complete"
+	f := c.NeedFunc(m, "kgo.groupConsumer.getUncommittedLocked")
+	if f == nil {
+		return
+	}
+	g := f.Graph()
+	info := f.Info()
+	var head types.Object
+	for _, fl := range f.Decl.Type.Params.List {
+		for _, nm := range fl.Names {
+			if nm.Name == "head" {
+				head = info.Defs[nm]
+			}
+		}
+	}
+	if head == nil {
+		c.Undecided(rule, f.Key+"#head", f.Pos(), m, "parameter head not found")
+		return
+	}
+	n, k := 0, 0
+	ast.Inspect(f.Decl.Body, func(x ast.Node) bool {
+		br, ok := x.(*ast.BranchStmt)
+		if !ok || br.Tok != token.CONTINUE {
+			return true
+		}
+		n++
+		// the enclosing if condition(s) evaluated with head == false
+		env := &triEnv{f: f, atom: func(e ast.Expr) (tri, bool) {
+			if id, ok := e.(*ast.Ident); ok && info.Uses[id] == head {
+				return triF, true
+			}
+			return triU, false
+		}}
+		pm := parentMap(f.Decl.Body)
+		reach := triT
+		for p := pm[br]; p != nil; p = pm[p] {
+			if ifs, ok := p.(*ast.IfStmt); ok {
+				// is br in the then-branch?
+				inThen := br.Pos() >= ifs.Body.Pos() && br.End() <= ifs.Body.End()
+				v := env.eval(ifs.Cond)
+				if !inThen {
+					v = v.not()
+				}
+				reach = triAnd(reach, v)
+			}
+		}
+		_ = g
+		c.Check(reach == triF, rule, f.Key+": partitions are skipped only when head is requested#"+ordinal(&k), br.Pos(), m, "", "getUncommittedLocked can skip a partition when the committed view is requested (head == false): CommittedOffsets then lacks never-committed partitions, the rewind after an aborted transaction does not seek them back, and their aborted input is never re-processed")
+		return true
+	})
+	c.Floor(rule+"/continues", n, 1)
+	// CommittedOffsets asks for the committed view
+	if cf := c.NeedFunc(m, "kgo.Client.CommittedOffsets"); cf != nil {
+		okc := false
+		for _, call := range callsNamed(cf.Decl.Body, cf.Info(), "getUncommittedLocked", false) {
+			if len(call.Args) == 2 {
+				a, ok1 := constBool(cf.Info(), call.Args[0])
+				okc = ok1 && !a
+			}
+		}
+		c.Check(okc, rule, cf.Key+": getUncommittedLocked(false, _)", cf.Pos(), m, "", "CommittedOffsets does not request the committed view")
+	}
 }
